@@ -1,6 +1,8 @@
 import Driver.B64
 import Driver.Rng
 import Driver.Totp
+import Driver.Apache
+import Driver.Digest
 /-
 Line protocol driver: `<suite> <op> <args…>` per input line, one result line out.
 Compiled (`lean_exe modeldrv`); nothing imported here touches Mathlib.
@@ -10,6 +12,8 @@ def dispatch (line : String) : String :=
   | "b64" :: rest => Driver.B64.handle rest
   | "rng" :: rest => Driver.Rng.handle rest
   | "totp" :: rest => Driver.Totp.handle rest
+  | "apache" :: rest => Driver.Apache.handle rest
+  | "digest" :: rest => Driver.Digest.handle rest
   | _ => Driver.bad
 
 partial def loop (h : IO.FS.Stream) (out : IO.FS.Stream) : IO Unit := do
